@@ -440,23 +440,25 @@ impl Sim {
 
     // ------------------------------------------------------------------ frames
 
-    fn decode_s2c(&mut self, ci: Option<usize>, ch: usize, bytes: &Bytes) -> Value {
-        let r = {
-            let slots = &self.slots;
-            let f = |n: &str| slots.get(n).map(|s| s.idx);
-            let names = Names {
-                rev: &self.rev,
-                pre: ci.map(|i| &self.clients[i].prespawned),
-                slot_idx: &f,
-                track: self.cfg.track,
-                rel: self.cfg.rel,
-            };
-            match ch {
-                CH_UPD => wire::decode_update(bytes, &names),
-                CH_MUT => wire::decode_mutate(bytes, &names),
-                _ => Ok(json!({"kind": "ev", "ch": ch, "len": bytes.len(), "hex": wire::hex(bytes)})),
-            }
+    fn with_names<R>(&self, ci: Option<usize>, f: impl FnOnce(&Names) -> R) -> R {
+        let slots = &self.slots;
+        let g = |n: &str| slots.get(n).map(|s| s.idx);
+        let names = Names {
+            rev: &self.rev,
+            pre: ci.map(|i| &self.clients[i].prespawned),
+            slot_idx: &g,
+            track: self.cfg.track,
+            rel: self.cfg.rel,
         };
+        f(&names)
+    }
+
+    fn decode_s2c(&mut self, ci: Option<usize>, ch: usize, bytes: &Bytes) -> Value {
+        let r = self.with_names(ci, |names| match ch {
+            CH_UPD => wire::decode_update(bytes, names),
+            CH_MUT => wire::decode_mutate(bytes, names),
+            _ => Ok(json!({"kind": "ev", "ch": ch, "len": bytes.len(), "hex": wire::hex(bytes)})),
+        });
         match r {
             Ok(v) => v,
             Err(e) => {
@@ -628,12 +630,16 @@ impl Sim {
             world.insert(
                 name.clone(),
                 json!({"alive": alive, "repl": repl, "markerAdd": marker_add, "comps": comps, "parent": parent,
-                       "used": slot.server.is_some()}),
+                       "used": slot.server.is_some(),
+                       "ver": {"A": slot.ver[0], "B": slot.ver[1], "P": slot.ver[2], "O": slot.ver[3]}}),
             );
         }
-        let mut despawn_buf: Vec<String> =
-            bevy_replicon::server::verif::despawn_buffer(w).into_iter().map(|e| self.slot_name(e)).collect();
-        despawn_buf.sort();
+        let mut despawn_buf = serde_json::Map::new();
+        for e in bevy_replicon::server::verif::despawn_buffer(w) {
+            let n = self.slot_name(e);
+            let cnt = despawn_buf.get(&n).and_then(|v: &Value| v.as_u64()).unwrap_or(0);
+            despawn_buf.insert(n, json!(cnt + 1));
+        }
         let mut removal_buf = serde_json::Map::new();
         for (e, ids) in bevy_replicon::server::verif::removal_buffer(w) {
             let mut ks: Vec<String> = ids.iter().map(|&i| wire::comp_name(i)).collect();
@@ -783,7 +789,13 @@ impl Sim {
             .resource::<BufferedMutations>()
             .verif_snapshot()
             .into_iter()
-            .map(|(u, t, n)| json!({"upd": u.get(), "tick": t.get(), "cnt": n}))
+            .map(|(u, t, n, body)| {
+                let ents = self.with_names(Some(ci), |names| {
+                    wire::decode_mutate_body(&mut wire::Cur::new(&body), names).map(|x| Value::Object(x.0))
+                });
+                json!({"upd": u.get(), "tick": t.get(), "cnt": if self.cfg.track { n as i64 } else { -1 },
+                       "ents": ents.unwrap_or_else(|e| json!({"?": e}))})
+            })
             .collect();
         json!({
             "status": status,
